@@ -1,7 +1,10 @@
 """C21 — frame / microframe numbers of USBDevice (luna/gateware/usb/usb2/device.py).
 
-DUT = the real `USBDevice(bus=UTMIInterface())` without endpoints; SOF and other packets are driven through
-the UTMI receive port; `frame_number`, `microframe_number`, `new_frame`, `sof_detected` are observed."""
+DUT = the real `USBDevice(bus=UTMIInterface())` with one stub endpoint (an empty module whose EndpointInterface
+lets the testbench raise `address_changed` / `new_address` and read `active_address`); SOF and other packets are
+driven through the UTMI receive port, bus resets are caused through `line_state` (SE0), `session_end` (VBUS loss)
+and `connect`; `frame_number`, `microframe_number`, `new_frame`, `sof_detected` are observed, and so is
+`reset_detected` (= reset_sequencer.bus_reset), which is handed to the Lean model as an input column."""
 from harness.common.framework import Case
 from harness.common.rng import Rng
 from harness.common import sim, usbref
@@ -9,41 +12,116 @@ from harness.common import sim, usbref
 PROP = "C21"
 LEAN_MODULES = ["LunaVerif.Props.C21"]
 DRIVER = "Driver/C21.lean"
-REQUIRED_THEOREMS = ["frame_tracks_sof", "microframe_reset_or_increment", "new_frame_iff_changed",
-                     "frame_outputs_exact"]
+REQUIRED_THEOREMS = ["frame_tracks_sof", "frame_tracks_sof_through_resets", "microframe_reset_or_increment",
+                     "new_frame_iff_changed", "new_frame_iff_changed_every_cycle", "registers_change_only_on_sof",
+                     "bus_reset_no_effect_on_frame_ports", "device_ports_exact", "frame_outputs_exact"]
 RULE = ("cases = SOF sequences rendered on the UTMI receive port of the real USBDevice: runs of repeats (x8 and other "
         "lengths, more than 8 to wrap the 3-bit microframe counter), increments, skips, 0x7FF->0 wrap, frame 0 right "
         "after reset, corrupted SOFs (CRC bit flip, bad check nibble, truncated, over-long), interleaved tokens / "
-        "handshakes / data packets / junk, random byte gaps; one kind additionally toggles line_state randomly")
+        "handshakes / data packets / junk, random byte gaps; one kind additionally toggles line_state randomly.  "
+        "Kinds 'reset' / 'reset-scaled' interleave BUS RESETS with that traffic through the device's real "
+        "USBResetSequencer: SE0 on line_state for just over 5 us (real class constants, 301+ cycles) or for a scaled "
+        "constant set (class attributes of USBResetSequencer patched for the case, as the repo's own test does on "
+        "the instance), SE0 held long, a second reset 1-3 cycles after the first, VBUS loss (session_end: bus_reset "
+        "held high for many cycles, also while SOFs arrive, so that a reset coincides with the SOF report cycle), "
+        "soft disconnect (connect low), suspend + reset from suspend (scaled sets), address updates through a stub "
+        "endpoint; after each reset: the same SOF number again (repeat), SOF 0, the next number, x8 repeats, "
+        "corrupted SOFs, other tokens.  reset_detected is OBSERVED on the gateware and fed to the model")
 ASSUMPTIONS = [
     "legal UTMI receive history (rx_valid only while rx_active, not in the cycle rx_active rises)",
     "a SOF takes effect on frame_number / microframe_number two cycles after rx_active falls (one register stage in "
     "the token detector, one in the device); new_frame / sof_detected are raised in the cycle between",
+    "the bus-reset input of the model is the device's own reset_detected output (reset_sequencer.bus_reset), in any "
+    "cycles whatsoever; when the reset sequencer raises it is C19's subject, not assumed here",
 ]
 PARTIAL = ""
 
-LINE_J = 1
-OUT_NAMES = ["frame_number", "microframe_number", "new_frame", "sof_detected"]
+LINE_SE0, LINE_J, LINE_K = 0, 1, 2
+OUT_NAMES = ["frame_number", "microframe_number", "new_frame", "sof_detected", "active_address"]
+IN_NAMES = ["rx_active", "rx_valid", "rx_data", "line_state", "connect", "session_end", "address_changed",
+            "new_address", "reset_detected(observed)"]
+N_DRIVEN = 8
+
+# USBResetSequencer class constants (cycles of the 60 MHz usb domain) and scaled-down sets
+RESET_ATTRS = ["_CYCLES_2P5_MICROSECONDS", "_CYCLES_5_MICROSECONDS", "_CYCLES_200_MICROSECONDS",
+               "_CYCLES_2_MILLISECONDS", "_CYCLES_2P5_MILLISECONDS", "_CYCLES_3_MILLISECONDS"]
+REAL_CONSTS = [150, 300, 12000, 120000, 150000, 180000]
+SCALED_CONSTS = [
+    [5, 10, 40, 120, 150, 180],
+    [3, 6, 20, 60, 75, 90],
+    [7, 13, 50, 100, 170, 4000],
+    [4, 9, 30, 200, 230, 250],
+]
 
 
-def render(packet, rng, line, lead=None, idle=None):
+class Bus:
+    """The non-receive columns, held between calls."""
+
+    def __init__(self, rng, noisy=False):
+        self.rng = rng
+        self.noisy = noisy
+        self.line_state = LINE_J
+        self.connect = 1
+        self.session_end = 0
+        self.addr_pulse = None
+
+    def cols(self):
+        ls = self.rng.below(4) if self.noisy else self.line_state
+        if self.addr_pulse is not None:
+            a, self.addr_pulse = self.addr_pulse, None
+            return [ls, self.connect, self.session_end, 1, a]
+        return [ls, self.connect, self.session_end, 0, self.rng.below(128) if self.rng.chance(10) else 0]
+
+
+def render(packet, rng, bus, lead=None, idle=None):
     rows = []
     for _ in range(lead if lead is not None else rng.choice([1, 1, 2, 4])):
-        rows.append([1, 0, rng.below(256), line(), 1])
+        rows.append([1, 0, rng.below(256)] + bus.cols())
     for b in packet:
-        rows.append([1, 1, b, line(), 1])
+        rows.append([1, 1, b] + bus.cols())
         for _ in range(rng.choice([0, 0, 0, 1, 3])):
-            rows.append([1, 0, rng.below(256), line(), 1])
+            rows.append([1, 0, rng.below(256)] + bus.cols())
     for _ in range(idle if idle is not None else rng.choice([1, 1, 2, 5])):
-        rows.append([0, 0, rng.below(256), line(), 1])
+        rows.append([0, 0, rng.below(256)] + bus.cols())
     return rows
+
+
+def idle_rows(n, rng, bus):
+    return [[0, 0, rng.below(256) if rng.chance(20) else 0] + bus.cols() for _ in range(n)]
+
+
+def bad_sof(target, rng):
+    pkt = usbref.sof_packet(target)
+    mode = rng.below(5)
+    if mode == 0:
+        b = rng.below(16)
+        pkt[1 + b // 8] ^= 1 << (b % 8)
+    elif mode == 1:
+        pkt[0] ^= 1 << rng.below(8)
+    elif mode == 2:
+        pkt = pkt[:rng.below(3)]
+    elif mode == 3:
+        pkt = pkt + [rng.below(256)]
+    else:
+        pkt[0] = usbref.pid_byte(rng.below(16))
+    return pkt
+
+
+def other_packet(rng):
+    return rng.weighted([(3, usbref.token_packet(rng.choice([usbref.PID_IN, usbref.PID_OUT, usbref.PID_SETUP]),
+                                                 rng.choice([0, 0, rng.below(128)]), rng.below(16))),
+                         (2, [usbref.pid_byte(rng.choice([usbref.PID_ACK, usbref.PID_NAK]))]),
+                         (2, usbref.data_packet(rng.choice([usbref.PID_DATA0, usbref.PID_DATA1]),
+                                                rng.bytes(rng.below(9)))),
+                         (1, rng.bytes(rng.range(1, 6)))])
 
 
 def make_stimulus(desc, rng):
     kind = desc["kind"]
-    noisy = kind == "line-noise"
-    line = (lambda: rng.below(4)) if noisy else (lambda: LINE_J)
-    rows = [[0, 0, 0, line(), 1] for _ in range(rng.range(0, 3))]
+    if kind in ("reset", "reset-scaled"):
+        return make_reset_stimulus(desc, rng)
+    bus = Bus(rng, noisy=(kind == "line-noise"))
+    rows = idle_rows(rng.range(0, 3), rng, bus)
     frame = rng.choice([0, 0, 1, 0x7FA, rng.below(2048)])
     n_pkts = 110 if kind != "hs-pattern" else 140
     k = 0
@@ -52,52 +130,183 @@ def make_stimulus(desc, rng):
             # high-speed pattern: every frame number 8 times, occasionally 7, 9 or 17 times
             reps = rng.weighted([(10, 8), (1, 7), (1, 9), (1, 17), (1, 1)])
             for _ in range(reps):
-                rows += render(usbref.sof_packet(frame), rng, line)
+                rows += render(usbref.sof_packet(frame), rng, bus)
                 k += 1
             frame = (frame + 1) & 0x7FF
             continue
-        what = rng.weighted([(10, "sof"), (3, "repeat"), (2, "skip"), (2, "bad"), (3, "other"), (1, "wrap")])
+        what = rng.weighted([(10, "sof"), (3, "repeat"), (2, "skip"), (2, "bad"), (3, "other"), (1, "wrap"),
+                             (1, "address")])
         if what == "sof":
             frame = (frame + 1) & 0x7FF
-            rows += render(usbref.sof_packet(frame), rng, line)
+            rows += render(usbref.sof_packet(frame), rng, bus)
         elif what == "repeat":
             for _ in range(rng.range(1, 10)):
-                rows += render(usbref.sof_packet(frame), rng, line)
+                rows += render(usbref.sof_packet(frame), rng, bus)
                 k += 1
         elif what == "skip":
             frame = (frame + rng.choice([2, 3, 100, 2047, 1024])) & 0x7FF
-            rows += render(usbref.sof_packet(frame), rng, line)
+            rows += render(usbref.sof_packet(frame), rng, bus)
         elif what == "wrap":
             frame = 0x7FE
             for f in (0x7FE, 0x7FF, 0, 1):
                 frame = f
                 for _ in range(rng.choice([1, 1, 8])):
-                    rows += render(usbref.sof_packet(f), rng, line)
+                    rows += render(usbref.sof_packet(f), rng, bus)
         elif what == "bad":
-            target = rng.choice([frame, (frame + 1) & 0x7FF, rng.below(2048)])
-            pkt = usbref.sof_packet(target)
-            mode = rng.below(5)
-            if mode == 0:
-                b = rng.below(16)
-                pkt[1 + b // 8] ^= 1 << (b % 8)
-            elif mode == 1:
-                pkt[0] ^= 1 << rng.below(8)
-            elif mode == 2:
-                pkt = pkt[:rng.below(3)]
-            elif mode == 3:
-                pkt = pkt + [rng.below(256)]
-            else:
-                pkt[0] = usbref.pid_byte(rng.below(16))
-            rows += render(pkt, rng, line)
+            rows += render(bad_sof(rng.choice([frame, (frame + 1) & 0x7FF, rng.below(2048)]), rng), rng, bus)
+        elif what == "address":
+            bus.addr_pulse = rng.choice([0, 1, rng.below(128)])
         else:
-            pkt = rng.weighted([(3, usbref.token_packet(rng.choice([usbref.PID_IN, usbref.PID_OUT, usbref.PID_SETUP]),
-                                                         rng.choice([0, 0, rng.below(128)]), rng.below(16))),
-                                (2, [usbref.pid_byte(rng.choice([usbref.PID_ACK, usbref.PID_NAK]))]),
-                                (2, usbref.data_packet(rng.choice([usbref.PID_DATA0, usbref.PID_DATA1]), rng.bytes(rng.below(9)))),
-                                (1, rng.bytes(rng.range(1, 6)))])
-            rows += render(pkt, rng, line)
+            rows += render(other_packet(rng), rng, bus)
         k += 1
-    rows += [[0, 0, 0, line(), 1] for _ in range(4)]
+    rows += idle_rows(4, rng, bus)
+    return rows
+
+
+def make_reset_stimulus(desc, rng):
+    """SOF traffic with bus resets in between.  Nothing here predicts when the reset sequencer raises bus_reset: the
+    scripts hold the conditions (SE0 / no VBUS / ...) a little longer than its thresholds, and the coverage tags
+    computed from the OBSERVED reset_detected column say what was reached."""
+    c5us = desc["consts"][1]
+    c2p5us = desc["consts"][0]
+    c3ms = desc["consts"][5]
+    bus = Bus(rng)
+    rows = idle_rows(rng.range(2, 6), rng, bus)
+    frame = rng.choice([0, 1, 5, 0x7FF, 0x400, rng.below(2048)])
+    budget = desc.get("cycles", 1500)
+
+    def sof(n, **kw):
+        return render(usbref.sof_packet(n), rng, bus, **kw)
+
+    def traffic(n_pkts):
+        nonlocal frame
+        out = []
+        for _ in range(n_pkts):
+            what = rng.weighted([(6, "sof"), (4, "repeat"), (1, "skip"), (1, "bad"), (2, "other"), (1, "address")])
+            if what == "sof":
+                frame = (frame + 1) & 0x7FF
+                out += sof(frame)
+            elif what == "repeat":
+                out += sof(frame)
+            elif what == "skip":
+                frame = (frame + rng.choice([2, 100, 1024, 2047])) & 0x7FF
+                out += sof(frame)
+            elif what == "bad":
+                out += render(bad_sof(rng.choice([frame, 0, (frame + 1) & 0x7FF]), rng), rng, bus)
+            elif what == "address":
+                bus.addr_pulse = rng.choice([1, 0x7F, rng.below(128)])
+                out += idle_rows(1, rng, bus)
+            else:
+                out += render(other_packet(rng), rng, bus)
+        return out
+
+    def se0(n, with_packets=False):
+        """n cycles of SE0 on the line (receive port idle, or — physically odd but legal for the quantifier —
+        packets arriving meanwhile), then back to J."""
+        nonlocal frame
+        bus.line_state = LINE_SE0
+        out = []
+        if with_packets:
+            while len(out) < n:
+                out += traffic(1)
+        else:
+            out += idle_rows(n, rng, bus)
+        bus.line_state = LINE_J
+        return out
+
+    def after_reset():
+        """What the host sends first after the reset."""
+        nonlocal frame
+        out = idle_rows(rng.choice([0, 1, 2, 7]), rng, bus)
+        what = rng.weighted([(4, "same"), (3, "zero"), (3, "next"), (2, "x8"), (1, "bad-then-same"), (1, "token"),
+                             (1, "one")])
+        if what == "same":
+            for _ in range(rng.choice([1, 2, 3])):
+                out += sof(frame)
+        elif what == "zero":
+            frame = 0
+            for _ in range(rng.choice([1, 1, 2, 9])):
+                out += sof(0)
+        elif what == "one":
+            frame = 1
+            out += sof(1)
+        elif what == "next":
+            frame = (frame + 1) & 0x7FF
+            out += sof(frame)
+        elif what == "x8":
+            for _ in range(8):
+                out += sof(frame)
+            frame = (frame + 1) & 0x7FF
+            out += sof(frame)
+        elif what == "bad-then-same":
+            out += render(bad_sof(rng.choice([0, frame]), rng), rng, bus)
+            out += sof(frame)
+        else:
+            out += render(usbref.token_packet(rng.choice([usbref.PID_IN, usbref.PID_OUT, usbref.PID_SETUP]), 0,
+                                              rng.below(16)), rng, bus)
+            out += sof(frame)
+        return out
+
+    rows += traffic(rng.range(1, 6))
+    while len(rows) < budget:
+        how = rng.weighted([(6, "se0"), (3, "double"), (3, "vbus"), (2, "vbus-sofs"), (2, "se0-long"),
+                            (2, "se0-packets"), (1, "short-se0"), (1, "disconnect"), (2, "suspend"),
+                            (1, "reset-in-report-cycle")])
+        if how == "se0":
+            rows += se0(c5us + rng.range(1, 6))
+        elif how == "double":
+            rows += se0(c5us + rng.range(1, 4))
+            rows += idle_rows(rng.range(1, 4), rng, bus)
+            rows += se0(c5us + rng.range(1, 4))
+            if rng.chance(40):
+                rows += idle_rows(rng.range(1, 3), rng, bus)
+                rows += se0(c5us + rng.range(1, 4))
+        elif how == "se0-long":
+            rows += se0(c5us + rng.range(20, 120))
+        elif how == "se0-packets":
+            rows += se0(c5us + rng.range(2, 40), with_packets=True)
+        elif how == "short-se0":
+            rows += se0(max(1, c5us - rng.range(0, 4)))          # not (quite) a reset
+        elif how == "vbus":
+            bus.session_end = 1
+            rows += idle_rows(rng.choice([1, 2, 3, 20, 60]), rng, bus)
+            bus.session_end = 0
+        elif how == "vbus-sofs":
+            # bus_reset held high while SOFs arrive: a reset in the SOF report cycle, the cycle before and after
+            bus.session_end = 1
+            rows += idle_rows(rng.range(1, 4), rng, bus)
+            rows += traffic(rng.range(2, 6))
+            bus.session_end = 0
+        elif how == "reset-in-report-cycle":
+            # a SOF whose report cycle (one after rx_active falls) lies inside a short VBUS drop
+            frame = rng.choice([frame, (frame + 1) & 0x7FF, 0])
+            rows += render(usbref.sof_packet(frame), rng, bus, idle=0)
+            first = rng.choice([0, 1, 2])
+            rows += idle_rows(first, rng, bus)
+            bus.session_end = 1
+            rows += idle_rows(rng.choice([1, 1, 2, 3]), rng, bus)
+            bus.session_end = 0
+            rows += idle_rows(2, rng, bus)
+        elif how == "disconnect":
+            bus.connect = 0
+            rows += idle_rows(c2p5us + rng.range(2, 12), rng, bus)
+            bus.connect = 1
+            rows += idle_rows(rng.range(2, 6), rng, bus)
+            rows += se0(c5us + rng.range(3, 8))
+        elif how == "suspend":
+            if c3ms > 600:
+                continue
+            # idle J for 3 "ms" -> SUSPENDED; then either reset from suspend (SE0 2.5 "us") or resume (K)
+            rows += idle_rows(c3ms + rng.range(2, 8), rng, bus)
+            if rng.chance(60):
+                rows += se0(c2p5us + rng.range(1, 5))
+            else:
+                bus.line_state = LINE_K
+                rows += idle_rows(rng.range(1, 4), rng, bus)
+                bus.line_state = LINE_J
+        rows += after_reset()
+        rows += traffic(rng.range(0, 5))
+    rows += idle_rows(4, rng, bus)
     return rows
 
 
@@ -110,27 +319,40 @@ def sof_of(pkt):
     return w & 0x7FF
 
 
-def monitor(stim, rows):
-    """Property on the real trace.  A well-formed SOF whose packet ends in cycle t: in cycle t+1 sof_detected is
-    high and new_frame = (number != frame_number); from cycle t+2 frame_number = number and microframe_number = 0
-    if the number changed, previous + 1 (mod 8) if it repeated.  Nothing else changes the registers or raises
-    the strobes."""
+def monitor(stim, rows, resets=None):
+    """Property on the real trace.  A well-formed SOF whose packet ends in cycle t: in cycle t+1 (the SOF report
+    cycle) sof_detected is high and new_frame = (number != frame_number); from cycle t+2 frame_number = number and
+    microframe_number = 0 if the number changed, previous + 1 (mod 8) if it repeated.  Nothing else — in particular
+    no bus reset, VBUS loss, disconnect or address change — changes the registers or raises the strobes.
+
+    Two layers: (1) exact required values of all four ports in every cycle, from the received packets alone;
+    (2) trace-relative rules that do not depend on (1)'s bookkeeping: the strobes are high only in SOF report cycles,
+    new_frame there iff the number differs from the frame_number SHOWN in that cycle, and the registers differ from
+    their values one cycle earlier only directly after a SOF report cycle.
+    `resets` (the observed reset_detected column) is used for coverage tags only."""
     fails = []
     tags = set()
     cur = None
     pending = None            # SOF number announced for this cycle
+    was_pending = None        # ... for the previous cycle
     frame, micro = 0, 0       # architectural values required in this cycle
     nxt = None
+    prev_out = None
+    last_reset = None         # cycle of the most recent observed bus reset
+    sofs_since_reset = None
+    n_resets = 0
 
     def fail(t, sig, what):
         if not any(f["sig"] == sig for f in fails):
             fails.append({"cycle": t, "sig": sig, "what": what})
 
     for t, (inp, out) in enumerate(zip(stim, rows)):
-        fn, mf, nf, sd = out
+        fn, mf, nf, sd = out[:4]
+        rst = bool(resets[t]) if resets is not None else False
         if nxt is not None:
             frame, micro = nxt
             nxt = None
+        # ---- layer 1: exact values
         if fn != frame:
             fail(t, "frame-number", "frame_number=%d at cycle %d, required %d" % (fn, t, frame))
         if mf != micro:
@@ -141,7 +363,62 @@ def monitor(stim, rows):
         if nf != want_nf:
             fail(t, "new-frame-strobe", "new_frame=%d at cycle %d, required %d (SOF %s, frame_number %d)"
                  % (nf, t, want_nf, pending, frame))
+        # ---- layer 2: trace-relative rules
+        if pending is None:
+            if nf:
+                fail(t, "new-frame-without-sof", "new_frame high at cycle %d although no well-formed SOF is reported "
+                     "in this cycle (frame_number=%d; last bus reset at cycle %s)" % (t, fn, last_reset))
+            if sd:
+                fail(t, "sof-detected-without-sof", "sof_detected high at cycle %d although no well-formed SOF is "
+                     "reported in this cycle" % t)
+        else:
+            if nf != int(pending != fn):
+                fail(t, "new-frame-iff-changed", "SOF %d reported at cycle %d while frame_number shows %d: new_frame=%d"
+                     % (pending, t, fn, nf))
+            if not sd:
+                fail(t, "sof-not-detected", "well-formed SOF %d reported at cycle %d but sof_detected is low"
+                     % (pending, t))
+        if prev_out is not None and was_pending is None:
+            if fn != prev_out[0]:
+                fail(t, "frame-number-changed-without-sof", "frame_number went %d -> %d at cycle %d although no SOF "
+                     "was reported in the cycle before (last bus reset at cycle %s)" % (prev_out[0], fn, t, last_reset))
+            if mf != prev_out[1]:
+                fail(t, "microframe-changed-without-sof", "microframe_number went %d -> %d at cycle %d although no "
+                     "SOF was reported in the cycle before (last bus reset at cycle %s)"
+                     % (prev_out[1], mf, t, last_reset))
+        if prev_out is not None and was_pending is not None:
+            want = (was_pending, 0 if was_pending != prev_out[0] else (prev_out[1] + 1) % 8)
+            if (fn, mf) != want:
+                fail(t, "registers-after-sof", "after SOF %d (registers before: %d.%d) the registers show %d.%d at "
+                     "cycle %d, required %d.%d" % (was_pending, prev_out[0], prev_out[1], fn, mf, t, want[0], want[1]))
+        # ---- coverage
+        if rst:
+            n_resets += 1
+            tags.add("bus-reset")
+            if frame != 0:
+                tags.add("reset-with-frame-nonzero")
+            if micro != 0:
+                tags.add("reset-with-microframe-nonzero")
+            if pending is not None:
+                tags.add("reset-in-sof-report-cycle")
+            if was_pending is not None:
+                tags.add("reset-in-cycle-after-sof-report")
+            if cur is not None:
+                tags.add("reset-during-packet")
+            if (t == 0 or not resets[t - 1]) and (t + 1 >= len(resets) or not resets[t + 1]):
+                tags.add("reset-pulse")
+            if last_reset is not None and t - last_reset == 1:
+                tags.add("reset-held")
+            elif last_reset is not None and t - last_reset <= 40:
+                tags.add("reset-soon-after-reset")
+            last_reset = t
+            sofs_since_reset = 0
         if pending is not None:
+            if sofs_since_reset == 0:
+                tags.add("first-sof-after-reset:" + ("repeat" if pending == frame else
+                                                     "zero" if pending == 0 else "changed"))
+            if sofs_since_reset is not None:
+                sofs_since_reset += 1
             if pending != frame:
                 nxt = (pending, 0)
                 tags.add("new-frame")
@@ -153,6 +430,8 @@ def monitor(stim, rows):
                 if micro == 7:
                     tags.add("microframe-wrap")
             tags.add("micro=%d" % nxt[1])
+        prev_out = (fn, mf)
+        was_pending = pending
         pending = None
         a, v, d = inp[0], inp[1], inp[2]
         if cur is None:
@@ -169,35 +448,77 @@ def monitor(stim, rows):
             cur = None
         elif v:
             cur.append(d)
+    if resets is not None:
+        tags.add("resets=%s" % ("0" if n_resets == 0 else "1-3" if n_resets <= 3 else "4-20" if n_resets <= 20
+                                 else ">20"))
     return fails, tags
 
 
 def gen_cases(tier, rng):
-    n = {"quick": 5, "widen": 12, "thorough": 30}[tier]
+    n = {"quick": 4, "widen": 12, "thorough": 30}[tier]
     out = []
-    for k in range(n * 3):
+    for k in range(n * 2):
         out.append({"kind": "mixed", "seed": rng.u64()})
-    for k in range(n):
+    for k in range(max(1, (n * 3) // 4)):
         out.append({"kind": "hs-pattern", "seed": rng.u64()})
     for k in range(max(1, n // 2)):
         out.append({"kind": "line-noise", "seed": rng.u64()})
+    for k in range(n):
+        out.append({"kind": "reset", "seed": rng.u64(), "consts": REAL_CONSTS, "cycles": 2400})
+    for k in range(n * 2):
+        out.append({"kind": "reset-scaled", "seed": rng.u64(), "consts": SCALED_CONSTS[k % len(SCALED_CONSTS)],
+                    "cycles": 1300})
     return out
+
+
+class StubEndpoint:
+    """An endpoint that does nothing: its EndpointInterface is the testbench's handle on the device's
+    address_changed / new_address inputs and active_address output."""
+
+    def __new__(cls):
+        from amaranth import Elaboratable, Module
+        from luna.gateware.usb.usb2.endpoint import EndpointInterface
+
+        class _Stub(Elaboratable):
+            def __init__(self):
+                self.interface = EndpointInterface()
+
+            def elaborate(self, platform):
+                return Module()
+        return _Stub()
 
 
 def run_case(desc):
     from luna.gateware.usb.usb2.device import USBDevice
+    from luna.gateware.usb.usb2.reset import USBResetSequencer
     from luna.gateware.interface.utmi import UTMIInterface
     utmi = UTMIInterface()
     dut = USBDevice(bus=utmi)
+    stub = StubEndpoint()
+    dut.add_endpoint(stub)
     stim = desc.get("stimulus") or make_stimulus(desc, Rng(desc["seed"]))
+    stim = [list(r[:N_DRIVEN]) for r in stim]       # a replayed trace carries the observed reset column too
     prev = 0
     for r in stim:
         assert not r[1] or (r[0] and prev), "stimulus left the LegalRx predicate"
         prev = r[0]
-    rows = sim.run_cycles(dut, [utmi.rx_active, utmi.rx_valid, utmi.rx_data, utmi.line_state, dut.connect],
-                          [dut.frame_number, dut.microframe_number, dut.new_frame, dut.sof_detected], stim,
-                          domain="usb")
-    fails, tags = monitor(stim, rows)
+    # The device creates its USBResetSequencer inside elaborate(); the cycle constants are class attributes (the
+    # repo's own test shortens them on the instance) — patch the class for the duration of this simulation.
+    consts = desc.get("consts") or REAL_CONSTS
+    saved = {a: getattr(USBResetSequencer, a) for a in RESET_ATTRS}
+    try:
+        for a, v in zip(RESET_ATTRS, consts):
+            setattr(USBResetSequencer, a, v)
+        obs = sim.run_cycles(dut, [utmi.rx_active, utmi.rx_valid, utmi.rx_data, utmi.line_state, dut.connect,
+                                   utmi.session_end, stub.interface.address_changed, stub.interface.new_address],
+                             [dut.frame_number, dut.microframe_number, dut.new_frame, dut.sof_detected,
+                              stub.interface.active_address, dut.reset_detected], stim, domain="usb")
+    finally:
+        for a, v in saved.items():
+            setattr(USBResetSequencer, a, v)
+    rows = [list(o[:5]) for o in obs]
+    resets = [o[5] for o in obs]
+    fails, tags = monitor(stim, rows, resets)
     tags.add("kind=" + desc["kind"])
-    return Case([], stim, rows, fails, sorted(tags), desc,
-                ["rx_active", "rx_valid", "rx_data", "line_state", "connect"], OUT_NAMES)
+    inputs = [r + [rst] for r, rst in zip(stim, resets)]
+    return Case([], inputs, rows, fails, sorted(tags), desc, IN_NAMES, OUT_NAMES)
